@@ -26,7 +26,8 @@ def run(ctx, res):
     nd = n * 7 // 10
     # six short directed histories first: gwcheck re-evaluates the first six sessions inside Coq (vm_compute), which is slow
     cases = scenarios.directed_cases(ctx, "c08x", 6, scenarios.sleep_history, scenarios.SLEEP_VERSIONS, length=(10, 16))
-    cases += scenarios.directed_cases(ctx, "c08s", nd - 6, scenarios.sleep_history, scenarios.SLEEP_VERSIONS)
+    cases += scenarios.corpus_cases(ID)
+    cases += scenarios.directed_cases(ctx, "c08s", nd - len(cases), scenarios.sleep_history, scenarios.SLEEP_VERSIONS)
     cases += gwcheck.gen_cases(ctx, "c08g", n - nd, length=(20, 60), versions=scenarios.SLEEP_VERSIONS)
     recs = gwcheck.run_cases(ctx, res, cases, ["c08"], SCOPE, "c08")
     keys = {"wake:both": "flush_with_both_parts", "wake:withheld>=2": "flush_with_2_or_more_withheld",
